@@ -317,11 +317,11 @@ type CorrHandle interface {
 
 // QFInv records one quorum-function invocation.
 type QFInv struct {
-	Method  string
-	SameReq bool
-	Keys    []uint32
-	Vals    []int64
-	Overlap int // invocations of this call's QF in flight, this one included
+	Method   string
+	SameReq  bool
+	Keys     []uint32
+	Vals     []int64
+	Overlap  int  // invocations of this call's QF in flight, this one included
 	AfterRet bool // invoked after the call had returned
 	// verdict
 	Quorum bool
